@@ -391,6 +391,12 @@ func main() {
 					splitY[y] = true
 				}
 			}
+			// the boxes handed out are the caller's to use (a drawing routine may scale them in place): changing them
+			// now, before the shape is evaluated, must not change the shape
+			for _, b := range bs {
+				ctr := b.Center()
+				b.Min, b.Max = ctr.Add(b.Min.Sub(ctr).MulScalar(0.9)), ctr.Add(b.Max.Sub(ctr).MulScalar(0.9))
+			}
 		}
 		for x := range splitX {
 			xs[x], xs[math.Nextafter(x, math.Inf(1))], xs[math.Nextafter(x, math.Inf(-1))] = true, true, true
